@@ -263,6 +263,9 @@ def _update_contract(name):
     for s in spec["states"]:
         ens[f"{name}_{s} in [0,1]"] = (lambda key: lambda a, r: in01(r[key].e))(f"{name}_{s}")
     ens["returns exactly its own states"] = lambda a, r: z3.BoolVal(sorted(r.keys()) == sorted(a["states"].keys()))
+    for s, g, extra in spec["gates"]:
+        ens[f"{name}_{s} follows the closed-form update of its own gate {g}"] = (
+            lambda s, g: lambda a, r: r[f"{name}_{s}"].e == gate_closed(name, g, a["states"][f"{name}_{s}"].e, a["dt"].e, a["v"], a["params"]))(s, g)
     callees = tuple(f"{spec['mod']}:{name}.{g}" for _, g, _ in spec["gates"])
     if spec["solver"]:
         callees += (f"jaxley.solver_gate:{spec['solver']}",)
@@ -271,7 +274,57 @@ def _update_contract(name):
     return target
 
 
+def gate_terms(name, g, v, params, prefix=None):
+    """the (alpha, beta) / (x_inf, tau) terms the gate contract of channel `name` yields for these arguments"""
+    from .contracts import uf_result
+    spec = CHANNELS[name]
+    c = REG[f"{spec['mod']}:{name}.{g}"]
+    extra = [e for s_, g_, e in spec["gates"] if g_ == g][0]
+    prefix = prefix or name
+    a = {"v": v}
+    for pname in GATES[c.target]["args"][1:]:
+        key = pname if pname in params else f"{prefix}_{pname}"
+        a[pname] = params[key]
+    return GATES[c.target]["kind"], uf_result(c, a)
+
+
+def gate_closed(name, g, x, dt, v, params):
+    kind, (p, q) = gate_terms(name, g, v, params)
+    if kind == "ab":
+        xinf = p.e / (p.e + q.e)
+        return xinf + (x - xinf) * E(-dt * (p.e + q.e))
+    return p.e + (x - p.e) * E(-dt / q.e)
+
+
+def gate_steady(name, g, v, params):
+    kind, (p, q) = gate_terms(name, g, v, params)
+    return p.e / (p.e + q.e) if kind == "ab" else p.e
+
+
 UPDATE_TARGETS = [_update_contract(n) for n in CHANNELS]
+
+
+def _init_contract(name):
+    spec = CHANNELS[name]
+    target = f"{spec['mod']}:{name}.init_state"
+
+    def inputs():
+        st, pa = channel_inputs(name)
+        return {"states": st, "v": S("v"), "params": pa, "delta_t": S("dt")}
+
+    def requires(a):
+        return channel_requires(name, a["states"], a["params"]) + dom_dt(a["delta_t"]) + [a["v"].e >= -120, a["v"].e <= 60]
+    ens = {"returns exactly its own states": lambda a, r: z3.BoolVal(sorted(r.keys()) == sorted(a["states"].keys()))}
+    for s, g, extra in spec["gates"]:
+        ens[f"{name}_{s} == steady state of its own gate {g}"] = (
+            lambda s, g: lambda a, r: r[f"{name}_{s}"].e == gate_steady(name, g, a["v"], a["params"]))(s, g)
+        ens[f"{name}_{s} in [0,1]"] = (lambda s: lambda a, r: in01(r[f"{name}_{s}"].e))(s)
+    callees = tuple(f"{spec['mod']}:{name}.{g}" for _, g, _ in spec["gates"])
+    REG.add(Contract(target, inputs=inputs, requires=requires, ensures=ens, callees=callees, boxes=lambda a: {}))
+    return target
+
+
+INIT_TARGETS = [_init_contract(n) for n in CHANNELS]
 
 
 # ---- synapses ---------------------------------------------------------------------------------------------
